@@ -109,6 +109,7 @@ def reference(n, nbrs, seed, profile, I0, tmin, tmax):
         else:
             if status[b] != 'S':
                 blocked += 1
+                times_seen.append(t)       # an attempt that coincides with another event (e.g. two sources reaching a node at once) is a tie
                 continue
             status[b] = 'I'
             if t == tmin and hist[b][0] == [tmin]:
